@@ -13,6 +13,7 @@ from ..common import Report
 
 PROPERTY = "C09"
 ENGINE = "E2"
+TECHNIQUE = "bounded-exhaustive metamorphic enumeration: base shapes x placement group / relabellings, every reflected observable compared through its transformation law"
 RULE = (
     "cases = base shape x (lattice hulls S3 as ConvexPolyhedron / Polyhedron / ConvexSpheropolyhedron, VOX 2x2x2 voxel solids as "
     "Polyhedron, P2/CP2 lattice polygons as Polygon / ConvexPolygon / ConvexSpheropolygon, curved shapes) x g in the placement group "
